@@ -57,7 +57,7 @@ TRUSTED = c10mod.TRUSTED + [
     "the harness and a field of the model's plan (FailKind) that no model function reads - the unchanged handler is a bare `except:`",
 ]
 RULE = (
-    "C10's table/row/op generators x connection mode (pysqlite legacy / AUTOCOMMIT / BEGIN recipe) x transactional_ddl option (default / True) x class of the injected exception (Exception / KeyboardInterrupt / SystemExit / BaseException); for each case the fault-free run gives the statement count n, then a fault is injected at "
+    "C10's table/row/op generators x connection mode (pysqlite legacy / AUTOCOMMIT / BEGIN recipe) x schema (main / ATTACHed database `aux`, with and without a table of the same name in main) x transactional_ddl option (default / True) x class of the injected exception (Exception / KeyboardInterrupt / SystemExit / BaseException); for each case the fault-free run gives the statement count n, then a fault is injected at "
     "k = 0..n-1 (quick: 3 sampled k per case, thorough: every k; plus two-step scenarios: a first batch fails at the RENAME under durable statements so that all rows live under the temporary name only, then the migration is retried - reflected or with copy_from, with or without an empty table re-created under the original name, with or without a fault at its first statement) under each scope (none / outer / swallow); natural failures come from the "
     "fault-free runs.  Non-trivial = the run failed after at least one statement and the table had >= 1 row; distinct by "
     "(statement kinds up to the failure, outcome, scope, recreate, copy_from)"
@@ -68,7 +68,7 @@ ASSUMPTIONS = c10mod.ASSUMPTIONS + ["single fault: only one statement fails (the
 def input_of(case):
     return {"table": case["table"], "ops": case["ops"], "recreate": case["recreate"], "copy_from": case["copy_from"],
             "fault": case["fault"], "scope": case["scope"], "iso": case.get("iso", "default"), "tddl": case.get("tddl"),
-            "fkind": case.get("fkind", "exception"), "pr": case.get("pr"),
+            "fkind": case.get("fkind", "exception"), "pr": case.get("pr"), "schema": case.get("schema"), "main_twin": case.get("main_twin"),
             **({"two_step": case["two_step"]} if case.get("two_step") else {})}
 
 
@@ -97,8 +97,16 @@ def judge(ctx, pending):
             ctx.disagree("batch.run", input_of(case), bc.brief(r),
                          {"stmts": m.get("stmts"), "outcome": m.get("outcome"), "final": bc.canon_db(m["final"]) if "final" in m else None},
                          note=",".join(d))
+            if len(ctx.disagreements) <= 5:
+                ctx.note("disagreement %s: %s impl=%s/%s model=%s/%s" % (
+                    ",".join(d), json.dumps({k: v for k, v in input_of(case).items() if k != "table"}), r["stmts"], r["outcome"],
+                    m.get("stmts"), m.get("outcome")))
+                ctx.note("  table=%s" % json.dumps(case["table"])[:1500])
         else:
             ctx.trace_ok()
+        if case.get("schema") and bc.main_untouched(r):
+            why = bc.main_untouched(r)
+            ctx.fail(input_of(case), "schema: %s" % "; ".join(why)[:500], impl=bc.brief(r), tags=["schema"])
         if applicable(r):
             for view, s in (("fresh", s1), ("same", s2)):
                 if "holds" in s and s["holds"] is not True:
@@ -116,7 +124,7 @@ def two_step(ctx, base, k_rename, rng, pending):
     step 2: the migration again on that database (see batch_corr.run_two_step)"""
     iso, scope = rng.choice([("autocommit", "none"), ("autocommit", "outer"), ("default", "swallow"), ("begin", "swallow")])
     c1 = bc.new_case(base["table"], base["ops"], base["recreate"], base["copy_from"], k_rename, scope, iso, rng.choice(TDDLS),
-                     rng.choice(FKINDS))
+                     rng.choice(FKINDS), pr=base.get("pr"), schema=base.get("schema"), main_twin=base.get("main_twin"))
     st = {"recreate_empty": rng.random() < 0.5, "copy_from": rng.random() < 0.6, "fault": rng.choice([None, None, 0]),
           "scope": rng.choice(SCOPES), "tddl": rng.choice(TDDLS), "fkind": rng.choice(FKINDS)}
     r1, c2, r2 = bc.run_two_step(c1, st)
@@ -137,6 +145,7 @@ def one(ctx, case, pending):
     ctx.hist("outcome", bc.canon_outcome(r["outcome"]) or "ok")
     ctx.hist("scope", case["scope"])
     ctx.hist("connection", case.get("iso", "default"))
+    ctx.hist("schema", "%s%s" % (case.get("schema") or "main", " + same name in main" if case.get("main_twin") else ""))
     ctx.hist("transactional_ddl", "default" if case.get("tddl") is None else str(case.get("tddl")))
     if case["fault"] is not None:
         ctx.hist("fault_exception_class", case.get("fkind", "exception"))
@@ -224,7 +233,10 @@ def run(ctx, n_cases=None, rng_name="main"):
             ops = bg.ordering_battery(t)[i * 3 + rng.randrange(2)]      # the add_column position branches, deterministically
             recreate = "always"
         pr = bg.gen_partial_reordering(rng, t, ops) if rng.random() < 0.1 else None
-        base = bc.new_case(t, ops, recreate, copy_from, None, rng.choice(SCOPES), rng.choice(ISOS), rng.choice(TDDLS), pr=pr)
+        # 20%: the table lives in an ATTACHed database (schema="aux"), half of them with a different table of that name in main
+        schema, twin = ("aux" if rng.random() < 0.2 else None), rng.random() < 0.5
+        base = bc.new_case(t, ops, recreate, copy_from, None, rng.choice(SCOPES), rng.choice(ISOS), rng.choice(TDDLS), pr=pr,
+                           schema=schema, main_twin=twin)
         r0 = one(ctx, base, pending)
         nst = len(r0["stmts"])
         if r0["outcome"] != "ok" and nst:
@@ -232,13 +244,13 @@ def run(ctx, n_cases=None, rng_name="main"):
             for sc in SCOPES:
                 for iso in ISOS:
                     if (sc, iso) != (base["scope"], base["iso"]):
-                        one(ctx, bc.new_case(t, ops, recreate, copy_from, None, sc, iso, rng.choice(TDDLS), pr=pr), pending)
+                        one(ctx, bc.new_case(t, ops, recreate, copy_from, None, sc, iso, rng.choice(TDDLS), pr=pr, schema=schema, main_twin=twin), pending)
         if r0["outcome"] == "ok" and nst:
             ks = list(range(nst)) if ctx.thorough else sorted(rng.sample(range(nst), min(nst, 3)))
             for k in ks:
                 for sc in (SCOPES if ctx.thorough else [rng.choice(SCOPES)]):
                     for iso in (ISOS if ctx.thorough else [rng.choice(ISOS)]):
-                        one(ctx, bc.new_case(t, ops, recreate, copy_from, k, sc, iso, rng.choice(TDDLS), rng.choice(FKINDS), pr=pr), pending)
+                        one(ctx, bc.new_case(t, ops, recreate, copy_from, k, sc, iso, rng.choice(TDDLS), rng.choice(FKINDS), pr=pr, schema=schema, main_twin=twin), pending)
         if r0["outcome"] == "ok" and "renameTmp" in r0["stmts"] and rng.random() < (0.5 if ctx.thorough else 0.4):
             two_step(ctx, base, r0["stmts"].index("renameTmp"), rng, pending)
         if len(pending) >= 200:
@@ -298,13 +310,15 @@ def replay(ctx, case):
     if inp.get("two_step"):
         s1, s2 = inp["two_step"]["step1"], inp["two_step"]["step2"]
         c1 = bc.new_case(inp["table"], inp["ops"], inp.get("recreate", "always"), s1["copy_from"], s1["fault"], s1["scope"],
-                         inp.get("iso", "default"), s1.get("tddl"), s1.get("fkind") or "exception")
+                         inp.get("iso", "default"), s1.get("tddl"), s1.get("fkind") or "exception", inp.get("pr"),
+                         inp.get("schema"), inp.get("main_twin"))
         r1, c, r = bc.run_two_step(c1, s2)
         if r is None:
             return {"step1": bc.brief(r1), "note": "step 1 did not leave the rows under the temporary name only"}
     else:
         c = bc.new_case(inp["table"], inp["ops"], inp.get("recreate", "always"), inp.get("copy_from", False), inp.get("fault"),
-                        inp.get("scope", "none"), inp.get("iso", "default"), inp.get("tddl"), inp.get("fkind", "exception"), inp.get("pr"))
+                        inp.get("scope", "none"), inp.get("iso", "default"), inp.get("tddl"), inp.get("fkind", "exception"), inp.get("pr"),
+                        inp.get("schema"), inp.get("main_twin"))
         r = bc.run_impl(c)
     m = ctx.drv.ask1(bc.model_op(c, r))
     out = {"impl": bc.brief(r), "model": {"stmts": m.get("stmts"), "outcome": m.get("outcome")}, "differences": bc.compare(c, r, m)}
